@@ -307,7 +307,11 @@ class EarleyRegexpMatcher:
             self.regexps[t.name] = lexer_conf.re_module.compile(regexp, lexer_conf.g_regex_flags)
 
     def match(self, term, text, index=0):
-        return self.regexps[term.name].match(text, index)
+        regexp = self.regexps.get(term.name)
+        if regexp is None:
+            # A %declare'd terminal has no pattern: nothing in the text can match it
+            return None
+        return regexp.match(text, index)
 
 
 def create_earley_parser__dynamic(lexer_conf: LexerConf, parser_conf: ParserConf, **kw):
